@@ -77,6 +77,12 @@ theorem reach_step {s : Src.adsr.Adsr} (h : Reach s) (o : C17.Op) (ho : C17.opWf
             | some x' => rw [hx] at e; simp only; exact ih x' y e
         rw [app ops s0 s hrun, hs]
 
+/-- non-vacuity: reachable states exist — `Adsr::new(1000.0)` itself, and (by `reach_step`) everything after it -/
+example : ∃ s, Reach s := by
+  have hsr : AdsrL.RateOk (ofBits 0x447a0000) := ⟨1000, false, by decide +kernel, by norm_num, by norm_num⟩
+  obtain ⟨s0, h0, _, _⟩ := new_tie (ofBits 0x447a0000)
+  exact ⟨s0, _, [], hsr, by simp, by rw [h0]; rfl⟩
+
 /-- a `tick` on the source is the `tick` of the model on the abstracted states -/
 theorem tick_sim {s s' : Src.adsr.Adsr} (hwf : WF s) (e : Src.adsr.Adsr.tick s = some s') :
     (Tie.Adsr.abs s).tick = some (Tie.Adsr.abs s') ∧ WF s' := by
